@@ -247,6 +247,7 @@ def _subhint_soundness(ctx, repo):
     ctx.floor('C19.R8', n, 2, 'possibly-true returns of _is_equal overrides')
 
     _base_branch(ctx)
+    _union_subhint(ctx)
 
 
 def typehint_cache(ctx, RULE):
@@ -406,3 +407,109 @@ def _base_branch(ctx):
     finally:
         F.builtin_hook, F.isinstance_hook = saved_b, saved_i
     ctx.floor('C19.R9', n, 32, 'abstract wrapper pairs')
+
+
+def _union_subhint(ctx):
+    """R10 by interpretation: the union wrapper's subhint test over abstract unions whose members may themselves be
+    union-like (a bounded or constrained type variable is a union of its bound / constraints)."""
+    from sa.fold import AObj, ClassVal, FuncVal, _Abort, _Raise, _call_function
+    from rules import _gen
+    repo = ctx.repo
+    F = _gen.engines(ctx)[0].f
+    ctx.rule('C19.R10', 'the union wrapper\'s subhint test, decided by interpreting it over abstract unions whose members are leaves or '
+             'union-like wrappers (a bounded type variable wraps its bound as its only branch): whenever it holds, every leaf of '
+             'the left side (union-like members expanded) is below some leaf of the right side; and every union is a subhint of '
+             'itself, also when a member is union-like (is_subhint(Optional[T], Optional[T]) for T bound to Sequence)')
+    # the union wrapper class: the TypeHint subclass that overrides _branches (found by role)
+    found = []
+    for mn, mod in sorted(repo.modules.items()):
+        if not mn.startswith('beartype.door._cls'):
+            continue
+        for c in [x for x in mod.tree.body if isinstance(x, ast.ClassDef)]:
+            names = {f.name for f in c.body if isinstance(f, ast.FunctionDef)}
+            if '_branches' in names and '_is_subhint' in names and c.name != 'TypeHint':
+                found.append((mn, c))
+    ctx.require(len(found) == 1, f'expected one union wrapper class overriding _branches and _is_subhint, found {[c.name for _, c in found]}')
+    mn, c = found[0]
+    m = repo.mod(mn)
+    cls = F.const(mn, c.name)
+    fn = cls.find('_is_subhint')
+    ctx.require(isinstance(fn, FuncVal), f'anchor vanished: {c.name}._is_subhint')
+    LEQ = {('a', 'a'), ('b', 'b'), ('c', 'c'), ('b', 'a')}          # b is a subclass of a; c unrelated
+
+    class _Leaf(AObj):
+        def __init__(self, name):
+            self.name = name
+            self._hint = f'<{name}>'
+            self._branches = (self,)
+
+        def is_subhint(self, other):
+            # the base test: some *direct* branch of the other side is above this leaf; a union-like branch is not a leaf
+            return any(isinstance(b, _Leaf) and (self.name, b.name) in LEQ for b in other._branches)
+
+        def __repr__(self):
+            return self.name
+
+    class _U(AObj):
+        def __init__(self, *branches):
+            self._branches = self._args_wrapped_tuple = tuple(branches)
+            self._hint = f'<union of {len(branches)}>'
+
+        def is_subhint(self, other):
+            return bool(_call_function(F, fn, [self, other], {}, 1))
+
+        def leaves(self):
+            return [l for b in self._branches for l in (b.leaves() if isinstance(b, _U) else [b])]
+
+        def __repr__(self):
+            return 'U[' + ', '.join(map(repr, self._branches)) + ']'
+
+    def leaves(x):
+        return x.leaves() if isinstance(x, _U) else [x]
+    saved_i = F.isinstance_hook
+
+    def ih(o, k):
+        if isinstance(o, (_U, _Leaf)) and isinstance(k, ClassVal):
+            if k is cls:
+                return isinstance(o, _U)
+            return True if k.name == 'TypeHint' else None
+        return saved_i(o, k) if saved_i else None
+    F.isinstance_hook = ih
+    a, b, c_ = _Leaf('a'), _Leaf('b'), _Leaf('c')
+    cases = [
+        ('plain:reflexive', _U(a, c_), _U(a, c_)),
+        ('plain:member-below-member', _U(b, c_), _U(a, c_)),
+        ('plain:member-without-counterpart', _U(a, c_), _U(a, b)),
+        ('plain:against-leaf:all-below', _U(a, b), a),
+        ('plain:against-leaf:one-not', _U(a, c_), a),
+        ('unionlike-member:reflexive', _U(_U(a), c_), _U(_U(a), c_)),
+        ('unionlike-member:two-branches:reflexive', _U(_U(a, c_), b), _U(_U(a, c_), b)),
+        ('unionlike-member:left-only', _U(_U(b), c_), _U(a, c_)),
+        ('unionlike-member:right-only', _U(b, c_), _U(_U(a), c_)),
+        ('unionlike-member:bound-not-covered', _U(_U(a), c_), _U(b, c_)),
+        ('unionlike-member:against-leaf', _U(_U(b)), a),
+        ('unionlike-member:against-leaf:not-below', _U(_U(c_)), a),
+    ]
+    n = 0
+    try:
+        for tag, me, other in cases:
+            raised = out = None
+            try:
+                out = _call_function(F, fn, [me, other], {}, 1)
+            except _Raise as ex:
+                raised = ex
+            except _Abort as ex:
+                ctx.require(False, f'cannot interpret {c.name}._is_subhint on {me} vs {other}: {ex}')
+            n += 1
+            ref = all(any((x.name, y.name) in LEQ for y in leaves(other)) for x in leaves(me))
+            holds = raised is None and bool(out)
+            ctx.ob('C19.R10', f'union-subhint:sound:{tag}', m.where(fn.node),
+                   f'{me} <= {other} holds only if every leaf of the left is below some leaf of the right', (not holds) or ref,
+                   f'evaluates to {out!r} although {[x.name for x in leaves(me) if not any((x.name, y.name) in LEQ for y in leaves(other))]} '
+                   f'has no counterpart')
+            if tag.endswith('reflexive'):
+                ctx.ob('C19.R10', f'union-subhint:{tag}', m.where(fn.node), f'{me} is a subhint of itself', holds,
+                       f'evaluates to {out!r}' if raised is None else f'raises {raised}')
+    finally:
+        F.isinstance_hook = saved_i
+    ctx.floor('C19.R10', n, 12, 'abstract union pairs')
